@@ -21,8 +21,8 @@
      tid (A11: only block numbers whose 16-bit halves are equal — among blocks 0..65535 that is block 0 only),
      pg_lsn (A10: only LSNs whose 32-bit halves are equal), numrange (A16: only `empty` and `(,)`: no finite bound);
    * no round trip at all: path, polygon (A17: every stored value is decoded in the wrong layout; `C04_path_finding`);
-   * type names: `C04_typeName` / `C04_typeName_only` for the 51 scalar type oids; the 51 array type oids have no name
-     (recorded finding ARRNAME, `C04_typeName_arrays_finding`).
+   * type names: `C04_typeName` / `C04_typeName_only` for the 51 scalar type oids and `C04_typeName_arrays` for the 51 array
+     type oids (finding ARRNAME, repaired by fixes/scalars/13).
   Text renderings: the Spec's view is written from PostgreSQL's output formats and value definitions (see the header of
   Spec/Scalars.lean for what is its own and what it shares with the model: only the numeral library `PgVerif.Txt`, whose
   functions are characterised independently — `C04_numerals`).
@@ -49,13 +49,13 @@ theorem C04_typeName : ∀ e ∈ pgTypeNames, typeName e.1 = asc e.2 := by decid
 
 /-- Conversely, every oid in 0..5000 to which TypeName gives a name (rather than `oid:<n>`) is a
 supported type and the name is PostgreSQL's: the tool never shows a wrong type name. -/
-theorem C04_typeName_only : ∀ e ∈ Generated.Scalars.typeNames, ∃ p ∈ pgTypeNames, p.1 = e.1 ∧ asc p.2 = e.2 := by decide
+theorem C04_typeName_only : ∀ e ∈ Generated.Scalars.typeNames, ∃ p ∈ pgTypeNames ++ pgArrayTypeNames, p.1 = e.1 ∧ asc p.2 = e.2 := by decide +kernel
 
-/-- The recorded finding ARRNAME, as a theorem: for every one of the 51 array types whose values DecodeType decodes (the
-keys of `arrayElemTypes`, which are exactly the oids of `Spec.pgArrayTypeNames`), TypeName answers `oid:<n>` — not
-PostgreSQL's name `_<element type>`.  `C04_typeName` above therefore holds for the scalar type oids only. -/
-theorem C04_typeName_arrays_finding :
-    (∀ e ∈ pgArrayTypeNames, typeName e.1 = asc "oid:" ++ decNat e.1 ∧ typeName e.1 ≠ asc e.2) ∧
+/-- Array types (finding ARRNAME, repaired by fixes/scalars/13): for every one of the 51 array types whose values DecodeType
+decodes (the keys of `arrayElemTypes`, which are exactly the oids of `Spec.pgArrayTypeNames`), TypeName answers PostgreSQL's
+pg_type.typname, `_` followed by the element type's name (`_int4`, `_text`, `_regproc` for 1008, `_int2vector` for 1006). -/
+theorem C04_typeName_arrays :
+    (∀ e ∈ pgArrayTypeNames, typeName e.1 = asc e.2) ∧
     (∀ e ∈ pgArrayTypeNames, (arrayElemTypes.lookup e.1).isSome = true) ∧
     (∀ p ∈ arrayElemTypes, (pgArrayTypeNames.lookup p.1).isSome = true) := by
   refine ⟨by decide, by decide, by decide⟩
